@@ -382,6 +382,7 @@ fn c13_l7_find_searches_all_orders() {
 }
 
 //@ prop: C13
+//@ tier: thorough
 //@ drives: PrcParameterFinder::find (three partition orders: 2 -> 1 -> 0), eval_partitions, merge_partitions
 //@ bound: a 256-sample block (finest order 2: 4 partitions of 64) with warm-up 0; the four per-partition cost tables are ARBITRARY (every lane in 4..=2^28-1), every max parameter 0..=14
 //@ asserts: code_bits is the minimum over orders 2, 1 and 0 (the cost need not be monotone in the order: a coarser order may win after a finer one lost); the returned order attains it and 2^order parameters are returned
